@@ -459,6 +459,53 @@ def float_cast_spec(r: random.Random, sources=('inline', 'dict', 'struct', 'hdf5
     return sp, xi, src, dst, nbad
 
 
+def float_cast_boundaries():
+    """Every (source float dtype, target integer dtype, value, lies outside the target's range?) at the very edge of the
+    target's range, for values the SOURCE type holds exactly: max + 1 (a power of two), the largest source float below
+    it, min, the source float just below min (only outside the range when its truncation is), -1.0 / -0.5 for unsigned
+    targets, and the target's max itself converted to the source type (float32(2**31 - 1) IS 2**31)."""
+    import numpy as np
+    out = []
+    for src in ('<f8', '>f8', '<f4', '>f4'):
+        st = np.dtype(src).newbyteorder('=').type
+        for dst in ('uint8', 'int8', 'uint16', 'int16', 'uint32', 'int32'):
+            info = np.iinfo(dst)
+            hi, lo = st(float(info.max) + 1.0), st(float(info.min))
+            cand = [hi, np.nextafter(hi, st(0)), st(info.max), lo, np.nextafter(lo, st(-np.inf)), st(float(info.min) - 1.0),
+                    st(-0.5), np.nextafter(hi, st(np.inf))]
+            seen = set()
+            for v in cand:
+                f = float(v)
+                if f in seen:
+                    continue
+                seen.add(f)
+                t = float(np.trunc(np.float64(f)))
+                out.append((src, dst, f, not (float(info.min) <= t < float(info.max) + 1.0)))
+    return out
+
+
+def float_cast_boundary_spec(k: int, sources=('inline', 'dict', 'struct', 'hdf5')):
+    """The k-th boundary case of float_cast_boundaries() as a one-frame specification (same return value as float_cast_spec)."""
+    combos = float_cast_boundaries()
+    src, dst, v, bad = combos[k % len(combos)]
+    q = k // len(combos)
+    n = (3, 1, 8, 17)[q % 4]
+    pos = (k * 7 + q) % n
+    sp = base_spec(128)
+    sp['ops'].append(origin_op())
+    ops = sp['ops']
+    single = (k + q) % 5 == 0
+    if not single:
+        ops.append(channel_op('IDX', '<f8', (n,), fill={'kind': 'pos', 'tag': 1}))
+    ops.append(channel_op('X', src, (n,), fill={'kind': 'oor', 'bad_at': [], 'bad_values': [[pos, v]]},
+                          layout=('C', 'strided', 'view')[(k + q) % 3], cast_dtype={'$dtype': dst, 'as': ('type', 'dtype')[k % 2]}))
+    xi = len(ops) - 1
+    ops.append(frame_op('FR', [i for i, o in enumerate(ops) if o['op'] == 'channel']))
+    sp['write'] = {'source': sources[(k + q) % len(sources)], 'input_chunk_size': (None, 1, 2)[(k // 2 + q) % 3] if n > 1 else None,
+                   'output_chunk_size': 2 ** 16}
+    return sp, xi, src, dst, int(bad)
+
+
 def frame_signature(sp) -> str:
     chans = [o for o in sp['ops'] if o['op'] == 'channel']
     w = sp.get('write', {})
